@@ -12,7 +12,8 @@
 //! dedup structures: empty / one byte / sub-chunk, multi-xorb fresh data, a repeat of chunks of the xorb that was just cut and of
 //! chunks pending in the open xorb (runs not starting at chunk 0), files sharing content and identical files in one session,
 //! consecutive dedup hits ending at the same chunk index, a byte-limit cut followed by many small chunks and a repeat of the chunk that
-//! opened the new xorb, low-entropy data, byte-level (unaligned) self-repeats; a second session re-uploading and recombining content
+//! opened the new xorb, low-entropy data, byte-level (unaligned) self-repeats, edited copies of an earlier file of the SAME session
+//! (bytes inserted / deleted / overwritten inside one chunk, two separate edits), near-duplicate runs inside one pending xorb; a second session re-uploading and recombining content
 //! of the first; cleaners fed round-robin.  Feed partitions: one call (larger than the ingestion block, not a multiple of it), small
 //! calls, mixed calls.  Prints `WITNESS ...` and exits 1 on the first violation.
 use std::process::{Command, Stdio};
@@ -224,6 +225,39 @@ fn build(l: &Limits, seed: u64) -> (Vec<Spec>, Vec<Session>) {
     let tail = pool.fresh(l, 3);
     let f_multi = add("multi-xorb", &format!("{} fresh chunks filling three xorbs and a bit", x1.len() + x2.len() + x3.len() + 3), cat(&[&x1, &x2, &x3, &tail]));
 
+    // edited copies of the head of multi-xorb (its first xorb and three more chunks), cleaned later in the SAME session, when that
+    // xorb is registered in the session's in-memory shard: a few bytes inserted / deleted / overwritten INSIDE one chunk (the
+    // chunking re-synchronises after the edit, so the file lines up with the stored xorb again after one differing chunk)
+    let head = cat(&[&x1, &x2[..3.min(x2.len())]]);
+    let mid_of = |k: usize| -> usize { x1[..k].iter().map(|c| c.len()).sum::<usize>() + x1[k].len() / 2 };
+    let edit = |ops: &[(usize, usize, &[u8])]| -> Vec<u8> {
+        // (offset in `head`, bytes removed there, bytes inserted there), offsets ascending
+        let mut out = vec![];
+        let mut pos = 0;
+        for (at, remove, insert) in ops {
+            out.extend_from_slice(&head[pos..*at]);
+            out.extend_from_slice(insert);
+            pos = at + remove;
+        }
+        out.extend_from_slice(&head[pos..]);
+        out
+    };
+    let last = x1.len() - 2;
+    let f_ins = add("edited-insert", &format!("the first xorb of multi-xorb + 3 chunks, with 10 bytes inserted in the middle of its chunk 2 (offset {})", mid_of(2)), edit(&[(mid_of(2), 0, b"0123456789")]));
+    let f_del = add("edited-delete", &format!("the same head with 7 bytes deleted in the middle of chunk 3 (offset {})", mid_of(3)), edit(&[(mid_of(3), 7, b"")]));
+    let f_ovw = add("edited-overwrite", &format!("the same head with 5 bytes overwritten in the middle of chunk 1 (offset {})", mid_of(1)), edit(&[(mid_of(1), 5, b"\xff\xfe\xfd\xfc\xfb")]));
+    let f_two = add("edited-twice", &format!("the same head with 3 bytes inserted in chunk 1 (offset {}) and 4 bytes overwritten in chunk {last} (offset {})", mid_of(1), mid_of(last)), edit(&[(mid_of(1), 0, b"abc"), (mid_of(last), 4, b"WXYZ")]));
+
+    // near-duplicate regions inside one pending xorb: a run of 6 fresh chunks, 2 fresh, the run again with its chunk 1 replaced,
+    // 1 fresh, the run again with chunks 2 and 3 replaced
+    let run = pool.fresh(l, 6);
+    let (n1, n2, n3, n4) = (pool.fresh(l, 2), pool.fresh(l, 1), pool.fresh(l, 1), pool.fresh(l, 2));
+    let f_neardup = add(
+        "near-duplicate",
+        "run R of 6 fresh chunks, 2 fresh, R with its chunk 1 replaced by a fresh chunk, 1 fresh, R with chunks 2 and 3 replaced",
+        cat(&[&run, &n1, &run[..1], &n2, &run[2..], &n3, &run[..2], &n4, &run[4..]]),
+    );
+
     // self-repeat: one full xorb A (cut), m more chunks B in the open xorb, then A[1] A[2] (low indices of the xorb just cut),
     // fresh, B[2..5] (a run pending in the open xorb, not starting at its chunk 0), fresh, B[1] B[1], tail
     let a = pool.fresh_xorb(l);
@@ -297,8 +331,8 @@ fn build(l: &Limits, seed: u64) -> (Vec<Spec>, Vec<Session>) {
         cat(&[&x1[2..5], &x1[3..5], &x1[0..2], &x1[1..2], &x1[5..6], &t1, &x2[x2.len() - 6..], &x3[..4], &s[3..], &t2]),
     );
 
-    let s1 = Session { files: vec![f_empty, f_one, f_sub, f_multi, f_selfrep, f_share1, f_share2, f_share3, f_samend, f_bigsmall, f_low, f_unaligned], round_robin: false };
-    let s2 = Session { files: vec![f_multi, f_recomb, f_selfrep, f_empty, f_sub, f_share2, f_bigsmall], round_robin: false };
+    let s1 = Session { files: vec![f_empty, f_one, f_sub, f_multi, f_ins, f_del, f_ovw, f_two, f_neardup, f_selfrep, f_share1, f_share2, f_share3, f_samend, f_bigsmall, f_low, f_unaligned], round_robin: false };
+    let s2 = Session { files: vec![f_multi, f_two, f_recomb, f_selfrep, f_empty, f_sub, f_share2, f_bigsmall], round_robin: false };
     let s3 = Session { files: vec![f_recomb, f_samend, f_share1, f_unaligned], round_robin: true };
     (specs, vec![s1, s2, s3])
 }
